@@ -68,7 +68,10 @@ func viDecode(w int, input []byte, plain bool) viDecRes {
 	var pr *plainReader
 	var err error
 	if w == 2 {
-		var v pk.VarInt
+		v := pk.VarInt(0x5A5A5A5A) // a used destination: nothing of the old value may survive a successful decode
+		if len(input)%2 == 0 {
+			v = 0
+		}
 		if plain {
 			pr = &plainReader{r: br}
 			res.rn, err = v.ReadFrom(pr)
@@ -77,7 +80,10 @@ func viDecode(w int, input []byte, plain bool) viDecRes {
 		}
 		res.rv = uint64(uint32(v))
 	} else {
-		var v pk.VarLong
+		v := pk.VarLong(0x5A5A5A5A5A5A5A5A)
+		if len(input)%2 == 0 {
+			v = -1
+		}
 		if plain {
 			pr = &plainReader{r: br}
 			res.rn, err = v.ReadFrom(pr)
